@@ -757,6 +757,8 @@ func (e *env) truthLines() []string {
 func errKind(err error) string {
 	s := err.Error()
 	switch {
+	case strings.Contains(s, "GC life time is shorter"):
+		return "refused"
 	case strings.Contains(s, "context canceled") || strings.Contains(s, "injected abort"):
 		return "injected"
 	case strings.Contains(s, "MaxSleep") || strings.Contains(s, "backoff"):
@@ -809,10 +811,41 @@ func doGet(s *txnsnapshot.KVSnapshot, k []byte) string {
 	})
 }
 
+// aliasing oracle: an API that takes [][]byte / []byte must leave the caller's slices as they were
+// (BatchGet's contract says "Don't modify keys"): same elements, same order, same bytes
+var aliasLog []string
+
+type keysCopy struct {
+	hdr  [][]byte
+	data [][]byte
+}
+
+func snapKeys(ks [][]byte) keysCopy {
+	c := keysCopy{hdr: append([][]byte{}, ks...)}
+	for _, k := range ks {
+		c.data = append(c.data, append([]byte{}, k...))
+	}
+	return c
+}
+
+func (c keysCopy) check(what string, ks [][]byte) {
+	bad := len(ks) != len(c.hdr)
+	for i := 0; !bad && i < len(ks); i++ {
+		if !bytes.Equal(ks[i], c.data[i]) || (len(ks[i]) > 0 && &ks[i][0] != &c.hdr[i][0]) {
+			bad = true
+		}
+	}
+	if bad {
+		aliasLog = append(aliasLog, fmt.Sprintf("%s\tbefore=%s\tafter=%s", what, hxs(c.data), hxs(ks)))
+	}
+}
+
 // withCommitTS: Get / BatchGet are called with kv.WithReturnCommitTS() (different cache-hit rule)
 var withCommitTS bool
 
 func doBatchGet(s *txnsnapshot.KVSnapshot, ks [][]byte) string {
+	cp := snapKeys(ks)
+	defer cp.check("BatchGet", ks)
 	return guard(func() string {
 		var m map[string]kv.ValueEntry
 		var err error
@@ -841,6 +874,8 @@ func doBatchGet(s *txnsnapshot.KVSnapshot, ks [][]byte) string {
 }
 
 func doScan(s *txnsnapshot.KVSnapshot, lo, hi []byte, rev bool) string {
+	cp := snapKeys([][]byte{lo, hi})
+	defer cp.check("Iter bounds", [][]byte{lo, hi})
 	return guard(func() string {
 		var it interface {
 			Valid() bool
@@ -1004,6 +1039,7 @@ func (e *env) reads(tier string) []string {
 			}
 		}
 		e.scheduleTopo(r)
+		cpBuf := snapKeys(ks)
 		res := guard(func() string {
 			m, err := sp.BatchGetWithTier(context.Background(), ks, txnsnapshot.BatchGetBufferTier, kv.BatchGetOptions{})
 			if err != nil {
@@ -1027,6 +1063,7 @@ func (e *env) reads(tier string) []string {
 		if len(dump) > 0 {
 			d = strings.Join(dump, ",")
 		}
+		cpBuf.check("BatchGetWithTier(buffer)", ks)
 		lines = append(lines, fmt.Sprintf("BBUF\t%d\tbuffer-tier\t%s\t%s\t%s\t=>\t%s", hid, u64s(t.start), hxs(ks), d, res))
 		// the snapshot tier of the same pipelined snapshot: own locks are skipped, not resolved
 		bgetL("pipelined-own", sp, t.start, allKeys)
@@ -1117,6 +1154,22 @@ func (e *env) reads(tier string) []string {
 	}
 	bgetL("moved", s1, h.ts2, allKeys)
 	e.scanCase(&lines, "moved-fresh", h.ts2, nil, nil, batchSizes[r.Intn(4)], false, false, false)
+	// the SAME key slice object reused over a partly warm cache: some keys read by Get first, then
+	// BatchGet twice with one slice; the second call must still be asked for (and answer) every key
+	for round := 0; round < 2; round++ {
+		sa := e.store.GetSnapshot(h.ts1)
+		own := append([][]byte{}, allKeys...)
+		if round == 1 {
+			own = pick(r, 2+r.Intn(len(allKeys)), allKeys)
+		}
+		intended := hxs(own)
+		for _, k := range pick(r, 1+r.Intn(len(own)), own) {
+			getL("same-slice-warmup", sa, h.ts1, k)
+		}
+		for rep := 0; rep < 3; rep++ {
+			lines = append(lines, fmt.Sprintf("BGET\t%d\tsame-slice-%d\t%s\t%s\t=>\t%s", hid, rep, u64s(h.ts1), intended, doBatchGet(sa, own)))
+		}
+	}
 	// fault class: the i-th point-read RPC of a BatchGet / Get fails non-retryably (cancelled RPC or a
 	// fabricated abort) while other regions answered; the SAME snapshot is then read again through every
 	// path: a failed call must not leave anything behind
@@ -1225,7 +1278,37 @@ func (e *env) reads(tier string) []string {
 			}
 		}
 		res = append(res, fmt.Sprintf("size=%d", sc.SnapCacheSize()))
-		lines = append(lines, fmt.Sprintf("CACHE\t%d\tprog\t%s\t=>\t%s", hid, strings.Join(ops, ";"), strings.Join(res, ";")))
+		lines = append(lines, fmt.Sprintf("CACHE\t%d\tprog\t0\t%s\t=>\t%s", hid, strings.Join(ops, ";"), strings.Join(res, ";")))
+	}
+	// the same kind of program with the store's cached transaction safe point above ts1: reads below it
+	// are refused (CheckVisibility) and must stay refused on every re-read; moving above it serves them
+	{
+		spTS := h.ts1 + 1
+		tsHigh := spTS + 10
+		e.store.UpdateTxnSafePointCache(spTS, time.Now())
+		sc := e.store.GetSnapshot(h.ts1)
+		var ops, res []string
+		n := 6 + r.Intn(6)
+		for i := 0; i < n; i++ {
+			switch x := r.Intn(10); {
+			case x < 4:
+				k := allKeys[r.Intn(len(allKeys))]
+				ops = append(ops, "g:"+hx(k))
+				res = append(res, doGet(sc, k))
+			case x < 8:
+				ks := pick(r, 1+r.Intn(4), allKeys)
+				ops = append(ops, "b:"+hxs(ks))
+				res = append(res, doBatchGet(sc, ks))
+			default:
+				ts := []uint64{h.ts1, tsHigh, tsHigh, h.ts2}[r.Intn(4)]
+				sc.SetSnapshotTS(ts)
+				ops = append(ops, "t:"+u64s(ts))
+				res = append(res, "ok")
+			}
+		}
+		res = append(res, fmt.Sprintf("size=%d", sc.SnapCacheSize()))
+		e.store.UpdateTxnSafePointCache(0, time.Now())
+		lines = append(lines, fmt.Sprintf("CACHE\t%d\tprog-sp\t%s\t%s\t=>\t%s", hid, u64s(spTS), strings.Join(ops, ";"), strings.Join(res, ";")))
 	}
 	// forward move over a commit (last section: it changes the world).  A snapshot meets the lock of a
 	// live, pushable transaction (min commit ts pushed, the transaction is remembered as "ignore"); the
@@ -1359,6 +1442,11 @@ func runHistory(seed int64, hid int, tier string) {
 		fmt.Fprintf(out, "LATER\t%d\t%s\t=>\tprobed\n", hid, l)
 	}
 	fmt.Fprintf(out, "LATER\t%d\tnone\tnone\t=>\tchecked\n", hid)
+	for _, a := range aliasLog {
+		fmt.Fprintf(out, "ALIAS\t%d\t%s\t=>\tmodified\n", hid, a)
+	}
+	aliasLog = nil
+	fmt.Fprintf(out, "ALIAS\t%d\tnone\t=>\tchecked\n", hid)
 	fmt.Fprintf(out, "MODE\t%d\tasync=%v\tcommitts=%v keyspace=%v\tasyncRPCs=%d\n", hid, asyncBG, withCommitTS, h.keyspace, e.hj.asyncSent)
 	e.hj.mu.Unlock()
 }
